@@ -14,6 +14,24 @@ Theorem C20_complete : forall (item : Type) (items : list item) (flt : pfilter) 
 Proof. exact (@list_pages_complete). Qed.
 Print Assumptions C20_complete.
 
+(* Termination and shape against ANY server, not only the documented one: if
+   the server echoes the requested page number and never reports more than C
+   pages, HTTPClient.list stops within C+1 iterations (fuel S C suffices),
+   has asked for the consecutive pages 1..k for some 1 <= k <= max(1,C), each
+   carrying the caller's filter, and returns exactly the concatenation of the
+   item lists the server gave, in request order - whatever those lists hold
+   (an early empty page ends the listing). *)
+Theorem C20_terminates_any_server :
+  forall (item : Type) (server : request -> response item) (C : nat),
+  (forall q, r_page (server q) = q_page q) ->
+  (forall q, r_count (server q) <= C) ->
+  forall (flt : pfilter) (s : nat),
+  exists k, 1 <= k /\ k <= Nat.max 1 C /\
+    list_pages server (S C) flt s
+    = Some (items_of server (map (mkreq flt s) (seq 1 k)), map (mkreq flt s) (seq 1 k)).
+Proof. exact (@list_pages_any_server). Qed.
+Print Assumptions C20_terminates_any_server.
+
 Theorem C20_observable : forall i, 0 < pg_size i -> pg_prop_ok i (pg_model i) = true.
 Proof. exact pg_model_ok. Qed.
 Print Assumptions C20_observable.
